@@ -1,4 +1,5 @@
 import Moclo.Proofs.RevComp
+import Moclo.Proofs.GenericReport
 import Moclo.Tables.Enzymes
 /-!
 # C12 — strand symmetry: reverse-complemented inputs give the reverse complement
@@ -13,10 +14,13 @@ Proved for every geometry and every record:
   boundaries — hence for the generic structures: *occurs in `w` iff occurs in `rc w`*, and the text of group 1
   (resp. 3, 2) on one strand is the reverse complement of the text of group 3 (resp. 1, 2) on the other:
   overhangs exchanged and reverse-complemented, body reverse-complemented.
+* the illegal-site screen counts the same number of valid cuts on both strands (`screen_rc`), and what a
+  generic class reports about the reverse complement of a record is the mirror image of what it reports about
+  the record (`report_rc`): same verdict, overhangs exchanged and reverse-complemented, target and
+  placeholder reverse-complemented.
 **Partial** (decided by the correspondence check and the metamorphic oracle on the implementation, not yet a
-theorem): that the illegal-site screen counts the same number of valid cuts on both strands, and the lift of
-the above through `assemble` (the product of the reverse complements is a rotation of the reverse complement
-of the product).  The duplicate screen of the implementation is *not* strand-symmetric when the vector's
+theorem): the lift of the above through `assemble` (the product of the reverse complements is a rotation of
+the reverse complement of the product).  The duplicate screen of the implementation is *not* strand-symmetric when the vector's
 upstream overhang clashes (known finding, DESIGN §8); the assembly-level statement needs "no reverse-
 complementary pair among all junction overhangs".
 -/
@@ -86,7 +90,131 @@ theorem mirrored_group_text (A : Word) (a b : Nat) (hab : a ≤ b) (hb : b ≤ A
 theorem mirrored_marks (a1 b1 a2 b2 a3 b3 L : Nat) :
     ([a1, b1, a2, b2, a3, b3].reverse.map (fun m => L - m)) = [L - b3, L - a3, L - b2, L - a2, L - b1, L - a1] := rfl
 
-/-! non-vacuity -/
+/-- **the illegal-site screen is strand-symmetric** for every non-palindromic site -/
+theorem screen_rc (g : Geom) (T : Word) (hnp : g.site ≠ rcNt g.site) (hs : 1 ≤ g.site.length) :
+    validCuts g (rc T) = validCuts g T := validCuts_rc g T hnp hs
+
+/-- every supported enzyme meets the hypotheses of `screen_rc` (kernel-checked on the regenerated table) -/
+theorem live_sites_nonpalindromic : ∀ r ∈ Generated.enzymes, r.site ≠ rcNt r.site ∧ 1 ≤ r.site.length := by
+  intro r hr
+  have h1 := List.all_eq_true.mp Tables.enzymes_sites r hr
+  have h2 := List.all_eq_true.mp Tables.enzymes_ok r hr
+  unfold Tables.EnzRow.ok at h2
+  simp only [Bool.and_eq_true, decide_eq_true_eq, bne_iff_ne, ne_eq] at h1 h2
+  exact ⟨h1.2, h2.1.1.1.1.1.1.1.1.2⟩
+
+/-- what a generic class reports, in terms of the three captured groups `a`, `b`, `c` and (vectors) the
+backbone `B` outside the overhangs -/
+def shape (kind : Kind) (a b c B : Word) : Word × Word × Word × Word :=
+  match kind with
+  | .module => (a, c, a ++ b, a ++ b)
+  | .vector => (c, a, c ++ B, a ++ b)
+
+theorem slice_rc_len (A : Word) (e a b : Nat) (he : A.length = e) (hab : a ≤ b) (hb : b ≤ e) :
+    slice (rc A) a b = rc (slice A (e - b) (e - a)) := by
+  subst he
+  have h := slice_rc A (A.length - b) (A.length - a) (by omega) (by omega)
+  have e1 : A.length - (A.length - a) = a := by omega
+  have e2 : A.length - (A.length - b) = b := by omega
+  rw [e1, e2] at h
+  exact h
+
+/-- **strand symmetry of typing**: a record that carries the generic structure exactly once on each strand
+is accepted on one strand iff on the other (same screen verdict), and what is reported about the reverse
+complement is the mirror image: groups 1 and 3 exchanged and reverse-complemented, group 2 and the backbone
+reverse-complemented — so upstream and downstream overhangs are swapped and reverse-complemented -/
+theorem report_rc (kind : Kind) (g : Geom) (w : Word) (hnp : g.site ≠ rcNt g.site) (hs : 1 ≤ g.site.length)
+    (hu : UniqueFit (genericStructure kind g) w) (hu' : UniqueFit (genericStructure kind g) (rc w)) :
+    (C02.report { kind := kind, pat := genericStructure kind g, geom := g } w = .error .illegal ∧
+     C02.report { kind := kind, pat := genericStructure kind g, geom := g } (rc w) = .error .illegal) ∨
+    ∃ a b c B,
+      C02.report { kind := kind, pat := genericStructure kind g, geom := g } w = .ok (shape kind a b c B) ∧
+      C02.report { kind := kind, pat := genericStructure kind g, geom := g } (rc w)
+        = .ok (shape kind (rc c) (rc b) (rc a) (rc B)) := by
+  obtain ⟨i, ms, e, hi, hr, huq⟩ := hu
+  obtain ⟨j, hj, hr2, hwin, he⟩ := fits_rc_circular_window hi hr
+  have hself : rcPattern (genericStructure kind g) = genericStructure kind g := by
+    cases kind
+    · exact rcPattern_module g
+    · exact rcPattern_vector g
+  rw [hself] at hr2
+  obtain ⟨i2, ms2, e2, hi2, hr2', huq2⟩ := hu'
+  have hjl : j < (rc w).length := by rw [rc_length']; exact hj
+  obtain ⟨ej, em, ee⟩ := huq2 j _ e hjl hr2
+  subst ej ee
+  rw [em] at hr2
+  have hwl := window_length w i (Nat.le_of_lt hi)
+  set text := window w i with htext
+  have hAl : (text.take e).length = e := by simp [hwl]; omega
+  have hA' : (window (rc w) j).take e = rc (text.take e) := by
+    rw [hwin, List.take_append_of_le_length (by rw [rc_length', hAl]), List.take_of_length_le (by rw [rc_length', hAl])]
+  have hB' : (window (rc w) j).drop e = rc (text.drop e) := by
+    rw [hwin, List.drop_append_of_le_length (by rw [rc_length', hAl]), List.drop_of_length_le (by rw [rc_length', hAl])]
+    rfl
+  have hscreen := validCuts_rc g (text.take e) hnp hs
+  cases kind with
+  | module =>
+    have hlen := (module_run_marks g hr).2
+    rw [show genericStructure .module g = moduleStructure g from rfl] at *
+    rw [module_report_of_fit g hi hr huq, module_report_of_fit g (w := rc w) hjl hr2 huq2, hA', hscreen]
+    by_cases hc : validCuts g (text.take e) > 2
+    · left; rw [if_pos hc, if_pos hc]; exact ⟨rfl, rfl⟩
+    · right
+      rw [if_neg hc, if_neg hc]
+      set p := g.site.length + g.off with hp
+      refine ⟨slice (text.take e) p (p + g.k), slice (text.take e) (p + g.k) (e - (p + g.k)),
+        slice (text.take e) (e - (p + g.k)) (e - p), [], ?_, ?_⟩
+      · simp only [shape]
+        rw [slice_join _ _ _ _ (by omega) (by omega)]
+      · simp only [shape]
+        rw [slice_rc_len _ e _ _ hAl (by omega) (by omega), slice_rc_len _ e _ _ hAl (by omega) (by omega),
+          slice_rc_len _ e _ _ hAl (by omega) (by omega)]
+        rw [← rc_append', slice_join _ _ _ _ (by omega) (by omega)]
+        have e1 : e - (e - p) = p := by omega
+        have e2 : e - (e - (p + g.k)) = p + g.k := by omega
+        rw [e1, e2]
+  | vector =>
+    have hlen := (vector_run_marks g hr).2
+    rw [show genericStructure .vector g = vectorStructure g from rfl] at *
+    rw [vector_report_of_fit g hi hr huq, vector_report_of_fit g (w := rc w) hjl hr2 huq2, hA', hB', hscreen]
+    by_cases hc : validCuts g (text.take e) > 2
+    · left; rw [if_pos hc, if_pos hc]; exact ⟨rfl, rfl⟩
+    · right
+      rw [if_neg hc, if_neg hc]
+      refine ⟨slice (text.take e) 1 (1 + g.k), slice (text.take e) (1 + g.k) (e - (g.k + 1)),
+        slice (text.take e) (e - (g.k + 1)) (e - 1),
+        (text.take e).drop (e - 1) ++ text.drop e ++ (text.take e).take 1, ?_, ?_⟩
+      · simp only [shape]
+        rw [slice_join _ _ _ _ (by omega) (by omega)]
+      · simp only [shape]
+        rw [slice_rc_len _ e _ _ hAl (by omega) (by omega), slice_rc_len _ e _ _ hAl (by omega) (by omega),
+          slice_rc_len _ e _ _ hAl (by omega) (by omega)]
+        have e1 : e - (e - 1) = 1 := by omega
+        have e2 : e - (e - (g.k + 1)) = 1 + g.k := by omega
+        have e4 : e - (1 + g.k) = e - (g.k + 1) := by omega
+        rw [e1, e2, e4]
+        have d1 : (rc (text.take e)).drop (e - 1) = rc ((text.take e).take 1) := by
+          rw [rc_drop_eq _ _ (by rw [hAl]; omega), hAl, e1]
+        have d2 : (rc (text.take e)).take 1 = rc ((text.take e).drop (e - 1)) := by
+          rw [rc_take_eq _ _ (by rw [hAl]; omega), hAl]
+        rw [d1, d2, rc_append', rc_append']
+        rw [← slice_join (text.take e) (1 + g.k) (e - (g.k + 1)) (e - 1) (by omega) (by omega), rc_append']
+        simp [List.append_assoc]
+
+/-- hence the verdict is the same on both strands -/
+theorem valid_rc (kind : Kind) (g : Geom) (w : Word) (hnp : g.site ≠ rcNt g.site) (hs : 1 ≤ g.site.length)
+    (hu : UniqueFit (genericStructure kind g) w) (hu' : UniqueFit (genericStructure kind g) (rc w)) :
+    (C02.report { kind := kind, pat := genericStructure kind g, geom := g } w).toOption.isSome =
+    (C02.report { kind := kind, pat := genericStructure kind g, geom := g } (rc w)).toOption.isSome := by
+  rcases report_rc kind g w hnp hs hu hu' with ⟨h1, h2⟩ | ⟨a, b, c, B, h1, h2⟩
+  · rw [h1, h2]
+  · rw [h1, h2]; rfl
+
+/-! non-vacuity: the example module of `Moclo.C02` is accepted on both strands, with one fit on each, and the
+overhangs come out exchanged and reverse-complemented -/
+example : ((List.range C02.w.length).filter (fun i => (relMatch C02.c.pat (window (rc C02.w) i)).isSome)).length = 1 := by decide
+example : (C02.report C02.c C02.w).map (fun r => (r.1, r.2.1)) = .ok ([⟨.A, false⟩, ⟨.C, false⟩], [⟨.C, false⟩, ⟨.A, false⟩]) ∧
+    (C02.report C02.c (rc C02.w)).map (fun r => (r.1, r.2.1)) = .ok ([⟨.T, false⟩, ⟨.G, false⟩], [⟨.G, false⟩, ⟨.T, false⟩]) := by decide
 example : rcPattern (moduleStructure ⟨[.G, .G, .T, .C, .T, .C], 1, 4⟩) = moduleStructure ⟨[.G, .G, .T, .C, .T, .C], 1, 4⟩ := by
   decide
 
